@@ -27,7 +27,7 @@ META = {
               "libmodule_logger = empty variadic"],
     "bounds": "quick: table size 4, 3 keys (single-character strings), one operation / one whole iteration from an "
               "arbitrary table under the representation invariant; growth 4->8 with 2 or 3 entries; API scripts of 2 "
-              "operations from m_map_new on a table used as 4 slots; remove from a full-load table of size 8 (6 "
+              "operations from m_map_new with MAP_SIZE_DEFAULT = 4 (verification hook); remove from a full-load table of size 8 (6 "
               "entries, keys numbered in slot order, caller-owned keys).  thorough: additionally table size 8 with keys "
               "numbered in slot order - get/contains/len/put/remove with 6 keys, clear/free and the iterator with 4, "
               "m_map_iterate with 3 - growth 4->8 with 4 keys and 8->16 from 4 entries, scripts of 3 operations.  "
@@ -41,8 +41,8 @@ META = {
     "assumptions": ["pre-state of the step/iterator/growth jobs = representation invariant of map_common.h (exactly "
                     "the tables puts can build at that size; asserted again after every operation; established from "
                     "m_map_new by the script jobs)",
-                    "script jobs: m_map_new's 256-slot table is used as a 4-slot one (table_size overwritten once, right "
-                    "after m_map_new) - map.c has no API for the initial size and 256 symbolic slots did not finish",
+                    "script jobs: map.c compiled with -DFEDEDP_LIBMODULE_VERIF_MAP_SIZE=4 (the repository's add-only hook: "
+                    "MAP_SIZE_DEFAULT = 4 instead of 256; a symbolic 256-slot table did not finish)",
                     "table size 8 jobs: WLOG the i-th occupied slot holds key i - key identities are interchangeable "
                     "(a key is its home homes[id], an arbitrary value; the operation's key is any of the NK); the size 4 "
                     "jobs do not use this reduction",
@@ -109,7 +109,8 @@ def _script_job(tier, L, keymode=None):
     return _job("C05.script.L%d%s" % (L, "" if keymode is None else ".K%d" % keymode), "l0/map_script.c", d, [HASH], tier,
                 ["operation[0..L)", "key[0..L)", "value", "hash home of every key", "M_MAP_VAL_ALLOW_UPDATE",
                  "destructor installed"] + (["key ownership mode"] if keymode is None else []),
-                "L=%d operations from m_map_new, table used as 4 slots, 3 keys, growing paths cut" % L, 14, leak=True)
+                "L=%d operations from m_map_new (MAP_SIZE_DEFAULT = 4 through the verification hook), 3 keys, growing "
+                "paths cut" % L, 14, leak=True, src_defines={"FEDEDP_LIBMODULE_VERIF_MAP_SIZE": 4})
 
 
 def jobs(tier):
@@ -133,5 +134,5 @@ PARALLEL = {"quick": 6, "thorough": 8}
 
 MANIFEST = {
     "text": 'Bounded model checking of all of Lib/structs/map.c with the hash replaced by an arbitrary function of the key: inductive step from an ARBITRARY table satisfying the representation invariant (table size 4 quick / 8 thorough, 3-4 keys, every collision/wrap-around pattern, every flag combination, destructor on/off) through one get/contains/len/remove/put/clear/free, one whole iterator walk with a solver-chosen edit (none/remove/set) at every position, one m_map_iterate with a callback removing a solver-chosen key set, one put that grows the table; plus API scripts from m_map_new that establish the invariant. Oracle: present/value model through the public API, destructor log by value identity, key-buffer allocation log, ghost visited set',
-    "note": 'hash abstracted to homes[key] (real hash only in the native reproducers); sizes 4/8 only (shipped 256 natively); scripts use the 256-slot table of m_map_new as a 4-slot one; m_map_itr_set_data destructor semantics and key-buffer ownership on AUTOFREE-only update/refusal are not asserted (text silent); allocation failure outside',
+    "note": 'hash abstracted to homes[key] (real hash only in the native reproducers); sizes 4/8 only (shipped 256 natively); scripts run with MAP_SIZE_DEFAULT = 4 (verification hook); m_map_itr_set_data destructor semantics and key-buffer ownership on AUTOFREE-only update/refusal are not asserted (text silent); allocation failure outside',
 }
